@@ -43,6 +43,8 @@ type simProvider struct {
 	handedOut int
 	// servedBad: the most recent Retrieve served something that cannot be brought up (error, invalid configuration)
 	servedBad bool
+	// failShutdown: Shutdown does its work and returns an error
+	failShutdown bool
 }
 
 // valProvider (scheme "simv") serves one scalar that the main configuration refers to: every resolution then has a
@@ -52,15 +54,28 @@ type valProvider struct {
 	retrieves int
 	shutdowns int
 	closes    int
+	// failShutdown: Shutdown does its work and returns an error
+	failShutdown bool
 }
 
 func (p *valProvider) Scheme() string { return "simv" }
 
-func (p *valProvider) Shutdown(context.Context) error {
+func (p *valProvider) Shutdown(ctx context.Context) error {
 	p.mu.Lock()
 	p.shutdowns++
 	p.mu.Unlock()
-	return nil
+	return provShutdownErr(ctx, p.failShutdown)
+}
+
+// provShutdownErr: what a provider planned to fail in Shutdown returns (its context's error when that is done).
+func provShutdownErr(ctx context.Context, fail bool) error {
+	if !fail {
+		return nil
+	}
+	if ctx.Err() != nil {
+		return fmt.Errorf("sim provider: %w", ctx.Err())
+	}
+	return errors.New("sim provider: backend gone")
 }
 
 func (p *valProvider) Retrieve(_ context.Context, _ string, _ confmap.WatcherFunc) (*confmap.Retrieved, error) {
@@ -77,12 +92,12 @@ func (p *valProvider) Retrieve(_ context.Context, _ string, _ confmap.WatcherFun
 
 func (p *simProvider) Scheme() string { return "sim" }
 
-func (p *simProvider) Shutdown(context.Context) error {
+func (p *simProvider) Shutdown(ctx context.Context) error {
 	p.mu.Lock()
 	p.shutdowns++
 	p.mu.Unlock()
 	p.w.emit("provider-shutdown", "provider", 0, "")
-	return nil
+	return provShutdownErr(ctx, p.failShutdown)
 }
 
 func (p *simProvider) Retrieve(_ context.Context, _ string, watcher confmap.WatcherFunc) (*confmap.Retrieved, error) {
@@ -223,7 +238,12 @@ func runC20(r *simkit.Run) {
 	steps := tp.Range(3, 18)
 	// plans: which components park or fail (applies to every generation)
 	parkish := tp.Chance(1, 2)
-	r.Sample = map[string]any{"initial": prov.next, "steps": steps, "parking_components": parkish, "nested_provider_reference": prov.nested}
+	if tp.Chance(1, 4) {
+		// both providers fail in Shutdown (with their context's error when that is done by then)
+		prov.failShutdown, vprov.failShutdown = true, true
+		r.Count("fault.provider_shutdown_failure")
+	}
+	r.Sample = map[string]any{"initial": prov.next, "steps": steps, "parking_components": parkish, "nested_provider_reference": prov.nested, "providers_fail_in_shutdown": prov.failShutdown}
 	if parkish {
 		for _, k := range compKeysOf(prov.next) {
 			if tp.Chance(1, 4) {
@@ -635,7 +655,7 @@ func (s *c20Sim) finalChecks() {
 		vsh := s.vprov.shutdowns
 		s.vprov.mu.Unlock()
 		if vsh != 1 {
-			r.Failf("provider", fmt.Sprintf("second-provider-shut-down-%d-times", vsh), "the second configuration provider (scheme simv) was shut down %d times", vsh)
+			r.Failf("provider", fmt.Sprintf("shut-down-%d-times", vsh), "the second configuration provider (scheme simv) was shut down %d times", vsh)
 		}
 		// (not part of the property's statement, only counted: every retrieved value closed exactly once)
 		s.prov.mu.Lock()
